@@ -21,7 +21,7 @@ RULE = ("evaluations = assignments computed by compiled experiments over determi
 ALPHA = 1e-9
 FAMILIES = vals.FAMILIES + ["two-field", "three-field", "long-key"]
 OFFSETS = [0, 10**6, 10**9, 2**31]
-SALTS = [None, "", "a", "b", "exp_2024"]
+SALTS = [None, "", "a", "b", "exp_2024", "Checkout-Button", "checkout-button", " checkout-button"]
 VECTORS = {"11": ["1", "1"], "123": ["1", "2", "3"], "19": ["1", "9"], "hh": ["0.5", "0.5"], "ten": ["1"] * 10,
            "eight125": ["12.5"] * 8, "six1666": ["16.66", "16.67"] * 3}
 
@@ -189,7 +189,7 @@ def run(res, tier):
     hostile_runs(res, "mc.checks.c04", "_work", [["int", 0, ["eight125", "six1666"], [None], 150000], ["uuid", 0, ["123", "hh"], [None, "a"], 20000]])
     if tier == "quick":
         m = 20000
-        units = [(f, o, ["11", "123", "ten", "hh"], [None, "a", "exp_2024"], m) for f in FAMILIES for o in (0, 10**9)]
+        units = [(f, o, ["11", "123", "ten", "hh"], [None, "a", "exp_2024", "Checkout-Button", "checkout-button"], m) for f in FAMILIES for o in (0, 10**9)]
     else:
         m = 200000
         units = [(f, o, list(VECTORS), SALTS, m) for f in FAMILIES for o in OFFSETS]
